@@ -22,7 +22,16 @@ static void mk_good(char *out, size_t n, const char *kid, long uid)
 }
 static void mk_bad(char *out, size_t n, long uid)
 {
-	snprintf(out, n, "{\"kty\":\"oct\",\"kid\":\"bad-%ld\"}", uid);
+	if (uid & 1) {
+		/* bad only after its key material was imported (non-string alg): the item owns key bytes although it is flagged */
+		unsigned char k[16] = { 0 };
+		char *k64;
+		k[0] = (unsigned char)(uid >> 24); k[1] = (unsigned char)(uid >> 16); k[2] = (unsigned char)(uid >> 8); k[3] = (unsigned char)uid;
+		k64 = vh_b64u_enc_dup(k, 16);
+		snprintf(out, n, "{\"kty\":\"oct\",\"k\":\"%s\",\"alg\":5,\"kid\":\"bad-%ld\"}", k64, uid);
+		free(k64);
+	} else
+		snprintf(out, n, "{\"kty\":\"oct\",\"kid\":\"bad-%ld\"}", uid);
 }
 
 static long item_uid(const jwk_item_t *it, int *kidcode)
